@@ -8,8 +8,11 @@
      shared  - the default extended-metadata dict shared by all executors was written to
      blk[x]  - executor x still holds inject / job-script blocks of an earlier query
      fnd[x]  - executor x still holds extended metadata found in an earlier query
+     nm[x]   - executor x's table of callable names (collections, C++ functions) still holds a
+               collection or a function that an earlier query declared through metadata
    An operation is one (query, metadata) handled on an executor:
-     kind   decl | decldef | enum | block | ext | plain   what its metadata declares
+     kind   decl | decldef | enum | block | ext | coll | fn | plain   what its metadata declares
+            (coll: a collection replacing the built-in of the same name plus a new one; fn: a C++ function)
      out    ok | tfail | rfail | mfail               succeeds / the translation (write) raises after
                                                      the metadata was applied / the client-side
                                                      rewrite raises after the metadata was applied
@@ -30,17 +33,18 @@ CONSTANTS MaxLen, Impl
 
 \* decldef: declares a method of a class that already carries built-in default declarations
 \* (ATLAS xAOD::TruthParticle), whose table is re-installed by every reset
-Kinds == {"decl", "decldef", "enum", "block", "ext", "plain"}
+Kinds == {"decl", "decldef", "enum", "block", "ext", "coll", "fn", "plain"}
 Decls == {"decl", "decldef"}
 Outs  == {"ok", "tfail", "rfail", "mfail"}
 Execs == {"same", "other", "otherbk"}
 Op == [kind : Kinds, out : Outs, on : Execs]
 
-VARIABLES hist, mt, en, shared, blk, fnd
-vars == <<hist, mt, en, shared, blk, fnd>>
+VARIABLES hist, mt, en, shared, blk, fnd, nm
+vars == <<hist, mt, en, shared, blk, fnd, nm>>
 
 Pristine == mt = FALSE /\ en = FALSE /\ shared = FALSE
             /\ blk = [x \in Execs |-> FALSE] /\ fnd = [x \in Execs |-> FALSE]
+            /\ nm = [x \in Execs |-> FALSE]
 
 Init == hist = <<>> /\ Pristine
 
@@ -54,9 +58,11 @@ ApplyImpl(op) ==
   /\ shared' = (shared \/ op.kind = "ext")
   /\ blk' = [blk EXCEPT ![op.on] = IF didReset THEN FALSE ELSE (@ \/ (op.kind = "block" /\ op.out \in {"tfail", "rfail"}))]
   /\ fnd' = [fnd EXCEPT ![op.on] = @ \/ (op.kind = "ext" /\ op.out # "mfail")]
+  /\ nm' = nm      \* the code merges the declared names into a copy of the executor's table: nothing stays
 
 ApplyRequired(op) == mt' = FALSE /\ en' = FALSE /\ shared' = FALSE
                      /\ blk' = [x \in Execs |-> FALSE] /\ fnd' = [x \in Execs |-> FALSE]
+                     /\ nm' = [x \in Execs |-> FALSE]
 
 Do(op) == /\ Len(hist) < MaxLen
           /\ hist' = Append(hist, op)
